@@ -750,3 +750,264 @@ Example rn_matches_hardware :
   forallb (fun z => rn_div_ok z 1000) [1; 1500; 2500; 999999999; -1500; -1; 123456789; 2147483647; -2147483648] = true /\
   forallb (fun z => rn_mul_ok 1000000 (rn (z mod 1000000) 1000000)) cross_values = true.
 Proof. vm_compute. repeat split. Qed.
+
+(* ====================================================================================== *)
+(* 8. decoding what any conforming writer sends (not only our own encoder's output)        *)
+(* ====================================================================================== *)
+Lemma canonical_load n bs rest : 0 <= n < 2 ^ 64 -> canonical n bs -> load_varint (bs ++ rest) = Ok (n, bs, rest).
+Proof.
+  intros Hn C. apply load_varint_rep. destruct C as (Sh & Va & Mi).
+  repeat split; try assumption. apply (canonical_length_lt_2p64 n bs); [repeat split; assumption|exact Hn].
+Qed.
+
+Lemma load_step_lendelim_wire {A} (h : A -> Z -> Z -> pval -> result A) rec fno kb lb p rest st :
+  0 < fno < 2 ^ 60 -> canonical (2 + fno * 8) kb -> Zlength p < 2 ^ 64 -> canonical (Zlength p) lb ->
+  load_step h rec (kb ++ lb ++ p ++ rest) st = (do st' <- h st fno 2 (PRaw p); rec rest st').
+Proof.
+  intros Hf Ck Hp Cl. unfold load_step.
+  assert (Hk : 0 <= 2 + fno * 8 < 2 ^ 64) by lia.
+  rewrite (canonical_load _ _ _ Hk Ck). cbn [bind].
+  rewrite key_num, key_wt by lia. replace (fno =? 0) with false by lia.
+  unfold read_payload. cbn [Z.eqb Pos.eqb].
+  assert (Hl0 : 0 <= Zlength p < 2 ^ 64) by (unfold Zlength in *; lia).
+  rewrite (canonical_load _ _ _ Hl0 Cl). cbn [bind].
+  rewrite read_exactly_app. cbn [bind]. reflexivity.
+Qed.
+
+Lemma outer_wire {A} (conv : list byte -> result A) fno inner bs (st0 : A) :
+  0 < fno < 2 ^ 29 -> Zlength inner < 2 ^ 63 -> msg_field_wire fno inner bs ->
+  load_loop (h_outer conv fno) (S (length bs)) bs st0 = conv inner.
+Proof.
+  intros Hf Hl (kb & lb & -> & Ck & Cl).
+  assert (Hne : kb ++ lb ++ inner <> []).
+  { destruct Ck as (Sh & _). apply varint_shape_nonempty in Sh. destruct kb; [congruence|discriminate]. }
+  rewrite load_loop_cons by exact Hne.
+  replace (kb ++ lb ++ inner) with (kb ++ lb ++ inner ++ []) at 2 by (rewrite app_nil_r; reflexivity).
+  rewrite (load_step_lendelim_wire (h_outer conv fno) _ fno kb lb inner [] st0); try lia; try assumption.
+  unfold h_outer. replace ((fno =? fno) && (2 =? 2)) with true by lia.
+  destruct (conv inner) as [v|k]; cbn [bind]; [|reflexivity].
+  destruct (length (kb ++ lb ++ inner)) eqn:E; [|reflexivity].
+  apply length_zero_iff_nil in E. contradiction.
+Qed.
+
+Lemma sn_wire_parse s n inner :
+  - 2 ^ 63 <= s < 2 ^ 63 -> - 2 ^ 31 <= n < 2 ^ 31 -> sn_wire s n inner ->
+  parse_sn inner = Ok (s, n) /\ (length inner <= 22)%nat.
+Proof.
+  intros Hs Hn W. destruct (bytes_parse_sn s n Hs Hn) as (bs & _ & W' & P & L & _).
+  rewrite (sn_wire_unique s n inner bs W W'). auto.
+Qed.
+
+(* a Timestamp field written canonically by anyone, nanos anywhere in int32: betterproto returns
+   exactly to_datetime of the pair (whose value / OverflowError is characterised above) *)
+Theorem parse_ts_wire fno s n inner bs :
+  0 < fno < 2 ^ 29 -> - 2 ^ 63 <= s < 2 ^ 63 -> - 2 ^ 31 <= n < 2 ^ 31 ->
+  sn_wire s n inner -> msg_field_wire fno inner bs -> parse_ts fno bs = to_datetime s n.
+Proof.
+  intros Hf Hs Hn W Wb. destruct (sn_wire_parse s n inner Hs Hn W) as (P & L).
+  unfold parse_ts. rewrite (outer_wire _ fno inner bs _ Hf (Zlength_le_22 _ L) Wb).
+  rewrite P. reflexivity.
+Qed.
+
+Theorem parse_dur_wire fno s n inner bs :
+  0 < fno < 2 ^ 29 -> - 2 ^ 63 <= s < 2 ^ 63 -> - 2 ^ 31 <= n < 2 ^ 31 ->
+  sn_wire s n inner -> msg_field_wire fno inner bs -> parse_dur fno bs = to_timedelta s n.
+Proof.
+  intros Hf Hs Hn W Wb. destruct (sn_wire_parse s n inner Hs Hn W) as (P & L).
+  unfold parse_dur. rewrite (outer_wire _ fno inner bs _ Hf (Zlength_le_22 _ L) Wb).
+  rewrite P. reflexivity.
+Qed.
+
+(* ====================================================================================== *)
+(* 9. the decoder loop is total: its fuel never runs out                                   *)
+(* ====================================================================================== *)
+Lemma load_varint_shorter s v raw rest : load_varint s = Ok (v, raw, rest) -> (length rest < length s)%nat.
+Proof.
+  intros H. apply load_varint_sound in H as (-> & Sh & _).
+  apply shape_length_pos in Sh. rewrite app_length. lia.
+Qed.
+
+Lemma read_exactly_len n l p r : read_exactly n l = Ok (p, r) -> (length r <= length l)%nat.
+Proof.
+  unfold read_exactly. destruct (Zlength l <? n); [discriminate|]. intros [= <- <-].
+  rewrite skipn_length. lia.
+Qed.
+
+Lemma read_payload_len wt r1 pv r2 : read_payload wt r1 = Ok (pv, r2) -> (length r2 <= length r1)%nat.
+Proof.
+  unfold read_payload.
+  destruct (wt =? 0).
+  { destruct (load_varint r1) as [[[v raw] r]|] eqn:L; cbn [bind]; [|discriminate].
+    intros [= <- <-]. apply load_varint_shorter in L. lia. }
+  destruct (wt =? 1).
+  { destruct (read_exactly 8 r1) as [[p r]|] eqn:L; cbn [bind]; [|discriminate].
+    intros [= <- <-]. eapply read_exactly_len; eassumption. }
+  destruct (wt =? 2).
+  { destruct (load_varint r1) as [[[len raw] r]|] eqn:L; cbn [bind]; [|discriminate].
+    destruct (read_exactly len r) as [[p r']|] eqn:L2; cbn [bind]; [|discriminate].
+    intros [= <- <-]. apply load_varint_shorter in L. apply read_exactly_len in L2. lia. }
+  destruct (wt =? 5).
+  { destruct (read_exactly 4 r1) as [[p r]|] eqn:L; cbn [bind]; [|discriminate].
+    intros [= <- <-]. eapply read_exactly_len; eassumption. }
+  destruct (wt =? 3); discriminate.
+Qed.
+
+Lemma load_loop_no_fuel_error {A} (h : A -> Z -> Z -> pval -> result A) :
+  (forall st num wt pv, h st num wt pv <> Err EFuel) ->
+  forall f bs st, (length bs < f)%nat -> load_loop h f bs st <> Err EFuel.
+Proof.
+  intros Hh. induction f as [|f IH]; intros bs st Hl; [lia|].
+  destruct bs as [|b bs']; [cbn; discriminate|].
+  cbn [load_loop]. unfold load_step.
+  destruct (load_varint (b :: bs')) as [[[key raw] r1]|k] eqn:L; cbn [bind].
+  - apply load_varint_shorter in L.
+    destruct (Z.shiftr key 3 =? 0); [discriminate|].
+    destruct (read_payload (Z.land key 7) r1) as [[pv r2]|k] eqn:P; cbn [bind].
+    + apply read_payload_len in P.
+      destruct (h st (Z.shiftr key 3) (Z.land key 7) pv) as [st'|k] eqn:H; cbn [bind].
+      * apply IH. lia.
+      * intros E. apply (Hh st (Z.shiftr key 3) (Z.land key 7) pv). rewrite H, E. reflexivity.
+    + unfold read_payload in P.
+      destruct (Z.land key 7 =? 0).
+      { destruct (load_varint r1) as [[[v' raw'] r']|k'] eqn:L2; cbn [bind] in P; [discriminate|].
+        injection P as <-. destruct (load_go_total 10 0 0 [] r1) as [(x & Hx)|[Hx|Hx]];
+          unfold load_varint in L2; rewrite Hx in L2; congruence. }
+      destruct (Z.land key 7 =? 1).
+      { unfold read_exactly in P. destruct (Zlength r1 <? 8); cbn [bind] in P; congruence. }
+      destruct (Z.land key 7 =? 2).
+      { destruct (load_varint r1) as [[[v' raw'] r']|k'] eqn:L2; cbn [bind] in P.
+        - unfold read_exactly in P. destruct (Zlength r' <? v'); cbn [bind] in P; congruence.
+        - injection P as <-. destruct (load_go_total 10 0 0 [] r1) as [(x & Hx)|[Hx|Hx]];
+            unfold load_varint in L2; rewrite Hx in L2; congruence. }
+      destruct (Z.land key 7 =? 5).
+      { unfold read_exactly in P. destruct (Zlength r1 <? 4); cbn [bind] in P; congruence. }
+      destruct (Z.land key 7 =? 3); congruence.
+  - destruct (load_go_total 10 0 0 [] (b :: bs')) as [(x & Hx)|[Hx|Hx]];
+      unfold load_varint in L; rewrite Hx in L; congruence.
+Qed.
+
+Lemma h_sn_no_fuel st num wt pv : h_sn st num wt pv <> Err EFuel.
+Proof.
+  destruct st as [s n]. unfold h_sn. destruct pv; [|discriminate].
+  destruct ((num =? 1) && (wt =? 0)); [discriminate|]. destruct ((num =? 2) && (wt =? 0)); discriminate.
+Qed.
+
+Theorem parse_sn_no_fuel bs : parse_sn bs <> Err EFuel.
+Proof. unfold parse_sn. apply load_loop_no_fuel_error; [apply h_sn_no_fuel|lia]. Qed.
+
+Lemma to_datetime_no_fuel s n : to_datetime s n <> Err EFuel.
+Proof.
+  unfold to_datetime, timedelta_new. destruct (Z.abs _ >? 999999999); cbn [bind]; [discriminate|].
+  unfold dt_add. destruct (_ || _); discriminate.
+Qed.
+Lemma to_timedelta_no_fuel s n : to_timedelta s n <> Err EFuel.
+Proof. unfold to_timedelta, timedelta_new. destruct (Z.abs _ >? 999999999); discriminate. Qed.
+
+Theorem parse_ts_no_fuel fno bs : parse_ts fno bs <> Err EFuel.
+Proof.
+  unfold parse_ts. apply load_loop_no_fuel_error; [|lia].
+  intros st num wt pv. unfold h_outer. destruct pv; [discriminate|].
+  destruct ((num =? fno) && (wt =? 2)); [|discriminate].
+  pose proof (parse_sn_no_fuel b). destruct (parse_sn b) as [[s n]|k]; cbn [bind]; [apply to_datetime_no_fuel|congruence].
+Qed.
+
+Theorem parse_dur_no_fuel fno bs : parse_dur fno bs <> Err EFuel.
+Proof.
+  unfold parse_dur. apply load_loop_no_fuel_error; [|lia].
+  intros st num wt pv. unfold h_outer. destruct pv; [discriminate|].
+  destruct ((num =? fno) && (wt =? 2)); [|discriminate].
+  pose proof (parse_sn_no_fuel b). destruct (parse_sn b) as [[s n]|k]; cbn [bind]; [apply to_timedelta_no_fuel|congruence].
+Qed.
+
+(* ====================================================================================== *)
+(* 10. property-level forms                                                                *)
+(* ====================================================================================== *)
+Theorem bytes_parse_dur_range fno d :
+  0 < fno < 2 ^ 29 -> in_dur_range d ->
+  exists bs, bytes_dur fno d = Ok bs /\ dur_field_wire fno d bs /\ parse_dur fno bs = Ok d.
+Proof. intros Hf R. apply bytes_parse_dur; [exact Hf|apply dur_range_days, R]. Qed.
+
+Theorem to_from_timedelta_range d :
+  in_dur_range d -> let '(s, n) := from_timedelta d in to_timedelta s n = Ok d.
+Proof. intros R. apply to_from_timedelta, dur_range_days, R. Qed.
+
+Theorem parse_duration_delta_to_json_range d : in_dur_range d -> parse_duration (delta_to_json d) = Ok d.
+Proof. intros R. apply parse_duration_delta_to_json, dur_range_days, R. Qed.
+
+Lemma negfrac_refuted :
+  exists d, in_dur_range d /\ from_timedelta_pinned d <> dur_of_us d /\
+            ~ dur_normal (fst (from_timedelta_pinned d)) (snd (from_timedelta_pinned d)) /\
+            (do b <- bytes_dur_pinned 1 d; parse_dur_pinned 1 b) <> Ok d.
+Proof.
+  exists (-1500000). destruct pinned_negfrac as (E1 & E2 & E3 & _).
+  split; [unfold in_dur_range, DUR_MAX_S; lia|]. rewrite E1, E2, E3. cbn [fst snd].
+  split; [discriminate|]. split; [unfold dur_normal; lia|discriminate].
+Qed.
+
+Lemma minus_one_us_refuted :
+  exists d, in_dur_range d /\ from_timedelta_pinned d = (0, 999999000) /\ dur_of_us d = (0, -1000) /\
+            (do b <- bytes_dur_pinned 1 d; parse_dur_pinned 1 b) = Ok 999999.
+Proof.
+  exists (-1). destruct pinned_negfrac as (_ & _ & _ & E1 & E2 & E3).
+  split; [unfold in_dur_range, DUR_MAX_S; lia|]. auto.
+Qed.
+
+Lemma two_p53_refuted :
+  exists d, in_dur_range d /\ 0 < d /\ from_timedelta_pinned d <> dur_of_us d /\
+            ~ denotes_us (fst (from_timedelta_pinned d)) (snd (from_timedelta_pinned d)) d.
+Proof.
+  exists (2 ^ 53 + 1). destruct pinned_2p53 as (E1 & E2 & _).
+  split; [unfold in_dur_range, DUR_MAX_S; lia|]. split; [lia|]. rewrite E1, E2. cbn [fst snd].
+  split; [discriminate|unfold denotes_us; lia].
+Qed.
+
+Lemma range_end_refuted :
+  exists d, in_dur_range d /\ from_timedelta_pinned d = (315576000000, 0) /\ dur_of_us d = (315575999999, 999999000).
+Proof.
+  exists 315575999999999999. destruct pinned_2p53 as (_ & _ & E1 & E2).
+  split; [unfold in_dur_range, DUR_MAX_S; lia|]. auto.
+Qed.
+
+Lemma subus_rounding_refuted :
+  exists s n, dur_normal s n /\ to_timedelta_pinned s n <> Ok (dur_to_us s n) /\ to_timedelta s n = Ok (dur_to_us s n).
+Proof.
+  exists 0, 1500. destruct pinned_to_timedelta_rounds as (E1 & E2 & E3 & _).
+  split; [unfold dur_normal; lia|]. rewrite E1, E2, E3. split; [discriminate|reflexivity].
+Qed.
+
+Lemma json_exp_refuted :
+  exists d, in_dur_range d /\ delta_to_json_pinned d <> dur_json (fst (dur_of_us d)) (snd (dur_of_us d)) /\
+            dur_parse (delta_to_json_pinned d) = None.
+Proof.
+  exists 1. destruct pinned_json_exp as (E1 & E2 & _ & E4 & _).
+  split; [unfold in_dur_range, DUR_MAX_S; lia|]. split; [|exact E2].
+  change (dur_of_us 1) with (0, 1000). cbn [fst snd]. rewrite E1, E4. discriminate.
+Qed.
+
+Lemma json_precision_refuted :
+  exists d, in_dur_range d /\ dur_parse (delta_to_json_pinned d) <> Some (dur_of_us d) /\
+            parse_duration_pinned (delta_to_json d) <> Ok d /\ parse_duration (delta_to_json d) = Ok d.
+Proof.
+  exists 315575999999999999. destruct pinned_json_precision as (E1 & E2 & E3 & E4).
+  split; [unfold in_dur_range, DUR_MAX_S; lia|]. rewrite E1, E2, E3, E4.
+  split; [discriminate|]. split; [discriminate|reflexivity].
+Qed.
+
+Lemma ts_json_offset_refuted :
+  exists cal dt, in_ts_range (instant dt) /\
+    timestamp_to_json_pinned cal dt <> Ok (ts_json cal (snd (ts_of_us (instant dt)))) /\
+    timestamp_to_json cal dt = Ok (ts_json cal (snd (ts_of_us (instant dt)))).
+Proof.
+  exists [x31; x39; x36; x39], (mkdt 499999 500000).
+  split; [unfold in_ts_range, TS_MIN_US, TS_MAX_US, instant; cbn [wall off]; lia|].
+  split; [vm_compute; discriminate|apply timestamp_to_json_is_spec].
+Qed.
+
+Lemma whole_seconds_refuted :
+  exists d, in_dur_range d /\ d mod 1000000 = 0 /\ delta_to_json d <> dur_json (fst (dur_of_us d)) (snd (dur_of_us d)) /\
+            dur_parse (delta_to_json d) = Some (dur_of_us d).
+Proof.
+  exists 1000000. destruct whole_seconds_json as (E1 & E2 & E3).
+  split; [unfold in_dur_range, DUR_MAX_S; lia|]. split; [reflexivity|].
+  change (dur_of_us 1000000) with (1, 0). cbn [fst snd]. rewrite E1, E2. split; [discriminate|exact E3].
+Qed.
